@@ -205,6 +205,26 @@ func C03(ctx *core.Ctx) int {
 					st.distinct[o.Hex] = true
 				}
 			}
+			// an encoder that fails on a message the other targets encode has drifted from them as surely as one
+			// that writes other bytes (added after seeded change C03-A6: a guard with a signed bound)
+			if len(encs) > 0 {
+				for _, cc := range obs {
+					o := cc.T.Out["ENC:"+m.ID]
+					if o == nil || o.Kind != "ERR" || o.ErrKind == "unsupported" || o.ErrKind == "inapplicable" || wallClockAnswer(o.ErrText) {
+						continue
+					}
+					var other string
+					for l := range encs {
+						if other == "" || l < other {
+							other = l
+						}
+					}
+					st.evals++
+					ctx.Report(fmt.Sprintf("encoders disagree|%s fails to encode a message that %s encodes|%s|%s", cc.Lang, other, errWord(o.ErrText), progClass(pc.Prog.Name)),
+						fmt.Sprintf("program %s message %s\nvalue %s\n%-7s %s\n%-7s %s", pc.Prog.Name, m.ID, core.Trunc(pc.R.FormatValue(nil, pc.R.Root, m.Val), 300), cc.Lang, core.Trunc(o.ErrText, 300), other, core.Trunc(encs[other], 300)),
+						map[string]any{"name": pc.Prog.Name, "message": m.ID, "text": pc.Text, "langs": []string{cc.Lang, other}})
+				}
+			}
 			var ls []string
 			for l := range encs {
 				ls = append(ls, l)
@@ -743,6 +763,31 @@ func lengthPrograms() []*dsl.Program {
 			a := &dsl.Program{Name: "L/inline-target-" + t, Packets: []*dsl.Packet{dsl.Root("Msg", dsl.Sc("u8", "Kind"), lf, dsl.In("Hdr", dsl.Sc("u16", "Code"), dsl.Ds("Text"), dsl.Rep(dsl.Sc("u8", "Flags"))), dsl.Sc("u8", "After"))}}
 			a.Opts = dsl.TargetOpts("glinline" + t)
 			out = append(out, a)
+		}
+		// the target is an object whose members all have a fixed size - a size a generator could compute instead of
+		// measure - of every fixed-size kind, nested; once without and once with one-byte `char` members
+		if t == "u8" || t == "u32" {
+			for _, withChar := range []bool{false, true} {
+				members := func(pfx string) []*dsl.Field {
+					fs := []*dsl.Field{dsl.Sc("u8", pfx+"A"), dsl.Sc("i16", pfx+"B"), dsl.Sc("f32", pfx+"C"), dsl.Sc("i64", pfx+"D"), dsl.Sc("f64", pfx+"E"), dsl.Fx(3, pfx+"F", nil), dsl.Zc(5, pfx+"G")}
+					if withChar {
+						fs = append([]*dsl.Field{dsl.Sc("char", pfx+"H")}, append(fs, dsl.Sc("char", pfx+"I"))...)
+					}
+					return fs
+				}
+				n := "nochar"
+				if withChar {
+					n = "char"
+				}
+				inner := dsl.Pk("Inner", members("N")...)
+				hdr := dsl.Pk("Hdr", append(members("M"), dsl.Ob("Inner", "Nest"))...)
+				a := &dsl.Program{Name: "L/fixed-size-object-target-" + n + "-" + t, Packets: []*dsl.Packet{dsl.Root("Msg", dsl.Sc("u8", "Kind"), dsl.Lo(t, "Len", "Head"), dsl.Ob("Hdr", "Head"), dsl.Sc("u8", "After")), hdr, inner}}
+				a.Opts = dsl.TargetOpts("glfixobj" + n + t)
+				out = append(out, a)
+				b := &dsl.Program{Name: "L/fixed-size-inline-target-" + n + "-" + t, Packets: []*dsl.Packet{dsl.Root("Msg", dsl.Sc("u8", "Kind"), dsl.Lo(t, "Len", "Hdr"), dsl.In("Hdr", append(members("M"), dsl.In("Nest", members("N")...))...), dsl.Sc("u8", "After"))}}
+				b.Opts = dsl.TargetOpts("glfixinl" + n + t)
+				out = append(out, b)
+			}
 		}
 		if t == "u16" {
 			for _, late := range []bool{false, true} {
